@@ -3,11 +3,12 @@ from ..core.model import Program
 from ..core.report import CheckContext
 from ..core.resolve import Resolver
 from ..rules import effect
-from .common import run_control
+from .common import run_control, generic_rules
 
 
 def analyse(ctx: CheckContext, p: Program):
     r = Resolver(p)
+    ctx.guard(generic_rules, ctx, p, r, "C11", extra_modules=("OpenPinch/utils/export.py",))
     cone = r.pipeline_cone()
     ctx.info["pipeline_cone_functions"] = len(cone)
     pe = effect.ParamEffects(p, r)
